@@ -121,7 +121,53 @@ func (fc *FnCtx) assertGlobal(f string) {
 	fc.globals = append(fc.globals, f)
 }
 
+// unboundAnchors lists anchored clauses whose anchor text was not found in the function (the contract no
+// longer binds to the code).
+func (fc *FnCtx) unboundAnchors() []string {
+	var out []string
+	if fc.con == nil || fc.fn == nil {
+		return nil
+	}
+	var lines []string
+	for _, b := range fc.fn.Blocks {
+		for _, in := range b.Instrs {
+			p := in.Pos()
+			if d, ok := in.(*ssa.DebugRef); ok {
+				p = d.Expr.Pos()
+			}
+			if p.IsValid() {
+				lines = append(lines, fc.e.srcLine(p))
+			}
+		}
+	}
+	has := func(anchor string) bool {
+		for _, l := range lines {
+			if strings.Contains(l, anchor) {
+				return true
+			}
+		}
+		return false
+	}
+	for _, a := range fc.con.Asserts {
+		if !has(a.Anchor) {
+			out = append(out, a.Anchor)
+		}
+	}
+	for _, a := range fc.con.Stored {
+		if !has(a.Anchor) {
+			out = append(out, a.Anchor)
+		}
+	}
+	return out
+}
+
 func (fc *FnCtx) finalize() {
+	for _, a := range fc.unboundAnchors() {
+		// an anchored clause that no longer finds its source line is a failed obligation, not a silent pass
+		ob := &Obligation{Fn: fc.name, Name: fc.name + "#anchor." + mangle(a), Kind: "anchor", Cond: "false", Guard: "true", fc: fc,
+			Status: "failed", Solver: "contract binding", Src: "anchored clause does not bind: no source line of the function contains " + fmt.Sprintf("%q", a)}
+		fc.obls = append(fc.obls, ob)
+	}
 	// everything that queries need is computed here, single-threaded (queries are rendered concurrently)
 	for _, ob := range fc.obls {
 		if ob.Block != nil {
